@@ -226,6 +226,9 @@ pub struct Prov {
     pub script: Script,
     pub log: Arc<Mutex<Vec<Ev>>>,
     ready_left: u8,
+    /// poll_ready has returned Ready(Ok) and no call has consumed it yet: like tower's own services this provider relies on
+    /// the Service contract and refuses (with an error, not a panic) a call that was not preceded by readiness
+    ready_ok: bool,
 }
 
 impl Prov {
@@ -235,12 +238,14 @@ impl Prov {
             script,
             log: Arc::new(Mutex::new(Vec::new())),
             ready_left: rl,
+            ready_ok: false,
         }
     }
 
     pub fn load(&mut self, script: Script) {
         self.ready_left = script.ready_pending;
         self.script = script;
+        self.ready_ok = false;
     }
 
     pub fn take_events(&self) -> Vec<Ev> {
@@ -290,6 +295,7 @@ impl tower::Service<GetSigningKeyRequest> for Prov {
             return Poll::Ready(Err(make_error(e)));
         }
         self.log.lock().unwrap().push(Ev::PollReady(1));
+        self.ready_ok = true;
         Poll::Ready(Ok(()))
     }
 
@@ -301,20 +307,25 @@ impl tower::Service<GetSigningKeyRequest> for Prov {
             region: req.region().to_string(),
             service: req.service().to_string(),
         });
-        let result: Result<GetSigningKeyResponse, BoxError> = match &self.script.answer {
-            Answer::Err(e) => Err(make_error(e)),
-            Answer::Derive {
-                secret,
-            } => derive_response(secret, req.request_date(), req.region(), req.service(), &self.script),
-            Answer::Fixed {
-                secret,
-                ymd,
-                region,
-                service,
-            } => match NaiveDate::from_ymd_opt(ymd.0, ymd.1, ymd.2) {
-                Some(d) => derive_response(secret, d, region, service, &self.script),
-                None => Err("harness: bad fixed date".into()),
-            },
+        let was_ready = std::mem::replace(&mut self.ready_ok, false);
+        let result: Result<GetSigningKeyResponse, BoxError> = if !was_ready {
+            Err("key provider: call() without a preceding poll_ready() that returned Ready(Ok) — no connection checked out".into())
+        } else {
+            match &self.script.answer {
+                Answer::Err(e) => Err(make_error(e)),
+                Answer::Derive {
+                    secret,
+                } => derive_response(secret, req.request_date(), req.region(), req.service(), &self.script),
+                Answer::Fixed {
+                    secret,
+                    ymd,
+                    region,
+                    service,
+                } => match NaiveDate::from_ymd_opt(ymd.0, ymd.1, ymd.2) {
+                    Some(d) => derive_response(secret, d, region, service, &self.script),
+                    None => Err("harness: bad fixed date".into()),
+                },
+            }
         };
         ProvFut {
             left: self.script.ans_pending,
